@@ -14,11 +14,11 @@ Grp  == IF "GRP" \in DOMAIN IOEnv THEN IOEnv.GRP ELSE "row"
 NMax == EnvInt("PROP_N", 40)
 NBig == EnvInt("PROP_BIG", 6)          \* number of sampled large n
 LevSel == IF "PROP_LEVELS" \in DOMAIN IOEnv /\ IOEnv.PROP_LEVELS = "all"
-          THEN 1..17 ELSE {1, 4, 8, 9, 11, 12, 13, 14, 17}
+          THEN 1..19 ELSE {1, 4, 8, 9, 11, 12, 13, 14, 19}
 Emit(c) == PrintT("CASE " \o ToJson(c))
 
 LevelDecs == <<"0.001", "0.01", "0.05", "0.1", "0.2", "0.25", "0.3", "0.5", "0.75", "0.8", "0.9", "0.95",
-               "0.975", "0.99", "0.995", "0.999", "0.9999">>
+               "0.975", "0.99", "0.995", "0.998", "0.999", "0.9995", "0.9999">>
 CKinds == <<"two", "upper", "lower">>
 Conf(ki, li) == [kind |-> CKinds[ki], level |-> [dec |-> LevelDecs[li]]]
 FrontEnds == <<"ci", "ci_wilson_ratio", "ci_true", "ci_if", "stats_new", "stats_from_iter",
@@ -57,7 +57,7 @@ RowPart(d) ==
 Mults == <<1, 2, 3, 10, 100>>
 MultPart(d) ==
   \A n \in 4..NMax : \A k \in 2..(n - 2) : (k * 7 + n) % 3 = 0 =>
-     \A li \in {8, 12, 17} : \A ki \in 1..3 : \A m \in 1..2 : \A j \in DOMAIN Mults :
+     \A li \in {8, 12, 19} : \A ki \in 1..3 : \A m \in 1..2 : \A j \in DOMAIN Mults :
         (m = 1 \/ (k >= 10 /\ n - k >= 10)) =>
         Emit(Case(IF m = 1 THEN "ci_wilson" ELSE "ci_z_normal", Mults[j] * n, Mults[j] * k, ki, li, j = 1, j = 1)
              @@ [method |-> IF m = 1 THEN "wilson" ELSE "wald", mult |-> Mults[j]])
@@ -65,7 +65,7 @@ MultPart(d) ==
 LevelsPart(d) ==
   \A n \in 4..NMax : \A k \in 2..(n - 2) : (k * 5 + n) % 4 = 0 =>
      \A ki \in 1..3 : \A m \in 1..2 : (m = 1 \/ (k >= 10 /\ n - k >= 10)) =>
-        \A li \in 1..17 :
+        \A li \in 1..19 :
            Emit(Case(IF m = 1 THEN "ci_wilson" ELSE "ci_z_normal", n, k, ki, li, li = 1, li = 1)
                 @@ [method |-> IF m = 1 THEN "wilson" ELSE "wald"])
 
